@@ -29,6 +29,13 @@ ForP1(v, q, x) == [Base(q) EXCEPT ![1] = WXor3(x, Base(q)[8], WRotl(Base(q)[14],
 ForBothZero(v, q) == [[Base(q) EXCEPT ![1] = WSub(P0Inv(WXor(v[5], WRotl(v[6], 19))), TT2C(v))]
                          EXCEPT ![5] = WXor(WSub(P0Inv(WXor(v[5], WRotl(v[6], 19))), TT2C(v)), WSub(WXor(v[1], WRotl(v[2], 9)), TT1C(v)))]
 ASSUME \A q \in 1..3 : Round1BothZero(IV, ForBothZero(IV, q)) /\ Round1BothZero(V1, ForBothZero(V1, q))
+\* SS1 of round 1 wraps: choose E' (= P0(TT2), through W_0) freely and A' (= TT1, through W_4) so that (A' <<< 12) = -(E' + (T_1 <<< 1)); E' values with the
+\* top bit set and clear give the one-carry and the two-carry case
+WNeg(x) == WAdd(WNot(x), <<0,1>>)
+ForSS1(v, q, e1) == [[Base(q) EXCEPT ![1] = WSub(P0Inv(e1), TT2C(v))]
+                        EXCEPT ![5] = WXor(WSub(P0Inv(e1), TT2C(v)), WSub(WRotl(WNeg(WAdd(e1, WRotl(T(1), 1))), 20), TT1C(v)))]
+SS1Es == << <<\h1234,\h5678>>, <<\hfedc,\hba98>>, <<\h8000,0>>, <<\h7fff,\hffff>> >>
+ASSUME \A q \in 1..Len(SS1Es) : Round1SS1Wraps(IV, ForSS1(IV, q, SS1Es[q])) /\ Round1SS1Wraps(V1, ForSS1(V1, q, SS1Es[q]))
 Sol(which, v, q, x) == IF which = 1 THEN ForTT2(v, q, x) ELSE IF which = 2 THEN ForTT1(v, q, x) ELSE ForP1(v, q, x)
 Msg(kind, which, q) == IF kind = 1 THEN BytesOf(Sol(which, IV, q, Values[q])) ELSE Block1 \o BytesOf(Sol(which, V1, q, Values[q]))
 \* self-check: every emitted message is of the class the trace specification will assign
@@ -40,6 +47,8 @@ Next == ~pdone /\ pq' = pq + 1 /\ pdone' = (pq + 1 >= Len(Values))
 Picked(q, kind) == Stride = 1 \/ kind = 1 \/ q % Stride = 1 \/ q <= 2
 EmitZ == pq \in 1..3 => PrintT(<<"PLAN", ToJson([kind |-> 1, which |-> 4, msg |-> BytesOf(ForBothZero(IV, pq))])>>)
                         /\ PrintT(<<"PLAN", ToJson([kind |-> 2, which |-> 4, msg |-> Block1 \o BytesOf(ForBothZero(V1, pq))])>>)
+EmitS == pq \in 1..Len(SS1Es) => PrintT(<<"PLAN", ToJson([kind |-> 1, which |-> 5, msg |-> BytesOf(ForSS1(IV, pq, SS1Es[pq]))])>>)
+                                 /\ PrintT(<<"PLAN", ToJson([kind |-> 2, which |-> 5, msg |-> Block1 \o BytesOf(ForSS1(V1, pq, SS1Es[pq]))])>>)
 Emit == pq >= 1 => \A which \in 1..3 : \A kind \in 1..2 : Picked(pq, kind) =>
             PrintT(<<"PLAN", ToJson([kind |-> kind, which |-> which, msg |-> Msg(kind, which, pq)])>>)
 =============================================================================
